@@ -4,12 +4,26 @@ From Coq Require Import ZArith Bool.
 From SNT Require Import Surface.Bounds Surface.BoundsProofs.
 Local Open Scope Z_scope.
 
-(* every axis length representable as i64 (no allocation can be longer), every
-   selector form, every integer type, every bound value of that type *)
-Theorem C08_python_slice : forall (t : ity) (s : sel) (n : Z),
+(* every axis length representable as i64 (no allocation of sized elements can be longer), every
+   selector form, every integer type, every bound value of that type.  Beyond i64::MAX (possible only
+   for surfaces of zero-sized elements) the statement is false: C08_beyond_i64max_refuted. *)
+Theorem C08_python_slice_upto_i64max : forall (t : ity) (s : sel) (n : Z),
   0 <= n <= i64_max -> sel_in t s = true ->
   view_bounds t s n = py_slice n s.
 Proof. exact view_bounds_py. Qed.
+
+(* known finding (class axis-beyond-i64max): range_bounds works in i64 and saturates the axis length,
+   so on an axis longer than i64::MAX the full range `..` stops at i64::MAX *)
+Theorem C08_beyond_i64max_refuted : exists (t : ity) (s : sel) (n : Z),
+  0 <= n <= 18446744073709551615 /\ sel_in t s = true /\ view_bounds t s n <> py_slice n s.
+Proof. exists Usize, Full, 18446744073709551615. repeat split; try discriminate. Qed.
+
+(* the specification, characterised element by element: py_slice n s is the interval of exactly the
+   indices k that the selector selects in Python's reading (negative bounds count from the end,
+   `a..b` holds norm a <= k < norm b, `a..=b` holds norm a <= k <= norm b), None when there is none *)
+Theorem C08_spec_by_membership : forall (n : Z) (s : sel) (k : Z), 0 <= n ->
+  (selects n s k <-> match py_slice n s with Some (a, b) => a <= k < b | None => False end).
+Proof. exact py_slice_member. Qed.
 
 (* the answer is None or a non-empty interval inside the axis *)
 Theorem C08_range : forall (n : Z) (s : sel) (a b : Z),
@@ -22,12 +36,12 @@ Theorem C08_index_absent : forall n i : Z,
 Proof. exact py_slice_none_idx. Qed.
 
 (* the result does not depend on the integer type the selector is written in *)
-Theorem C08_type_independent : forall (t1 t2 : ity) (s : sel) (n : Z),
+Theorem C08_type_independent_upto_i64max : forall (t1 t2 : ity) (s : sel) (n : Z),
   0 <= n <= i64_max -> sel_in t1 s = true -> sel_in t2 s = true ->
   view_bounds t1 s n = view_bounds t2 s n.
 Proof. exact view_bounds_type_independent. Qed.
 
-Check C08_python_slice : forall (t : ity) (s : sel) (n : Z),
+Check C08_python_slice_upto_i64max : forall (t : ity) (s : sel) (n : Z),
   0 <= n <= i64_max -> sel_in t s = true -> view_bounds t s n = py_slice n s.
 
 (* non-vacuity and the former failing inputs, now as theorems about the model *)
